@@ -122,7 +122,7 @@ func (r *Run) AddPart(p Part) {
 		r.exhaustive = false
 	}
 	r.mu.Unlock()
-	fmt.Printf("part %-28s executions=%d states=%d transitions=%d exhaustive=%v %s\n", p.Name, p.Executions, p.States, p.Transitions, p.Exhaustive, p.Note)
+	fmt.Printf("[%6.1fs] part %-28s executions=%d states=%d transitions=%d exhaustive=%v %s\n", time.Since(r.start).Seconds(), p.Name, p.Executions, p.States, p.Transitions, p.Exhaustive, p.Note)
 }
 
 // NotExhaustive marks the run as capped, with the reason.
